@@ -119,6 +119,17 @@ TD_STREAM = {
     ],
 }
 
+QUERY_STREAM = {
+    "name": "query",
+    "quick": {"cases": 400, "args": ["--maxvars=6", "--maxops=30"]},
+    "thorough": {"cases": 12000, "args": ["--maxvars=8", "--maxops=50"]},
+    "shrink_levels": [
+        {"cases": 800, "args": ["--maxvars=2", "--maxops=6"]},
+        {"cases": 800, "args": ["--maxvars=3", "--maxops=10"]},
+        {"cases": 800, "args": ["--maxvars=4", "--maxops=14"]},
+    ],
+}
+
 BDD_RULE = ("operation programs over RobddBuilder (random/linear/reversed orders, AllIteTable or LruIteTable with hooked "
             "capacity 2^0..2^3, hooked unique-table capacity 4..16 so the table grows repeatedly); a case is non-trivial when "
             "at least one result has a node whose child is a node; distinct = distinct program text")
@@ -290,5 +301,40 @@ PROPS = {
                       "root chain (condOrig_wrong, compileTopdownOrig_not_false).",
         "level_note": "Trusted: Lean kernel; allowed axioms; harness+driver. Conditional on the solver contract (HashSound is inherently conditional: wrapping_mul); semantic store under CollisionFree.",
         "explanation": "C06.* theorems; td stream: implementation vs brute force (models, is_false, once-per-path, all conditionings), vs mirrored compiler on mirrored propagator.",
+    },
+    "C10": {
+        "modules": ["RsddModel.Props.C10", "RsddModel.Props.C10Sdd"],
+        "streams": [QUERY_STREAM],
+        "rule": "a builder program, then 4-14 queries drawn from {count in FiniteField, count in reals, evaluate, count_nodes, semantic_hash, marginal_map, "
+                "smooth, condition} on the five largest distinct diagrams of the pool (they share nodes); each answer is compared with the same query "
+                "on a freshly built copy in a new builder; scratch emptiness of every node reachable from the pool is read after every call; "
+                "non-trivial = a queried diagram has a node below a node",
+        "trusted": ["modelled not verified: RefCell<Option<Box<dyn Any>>> as a tagged cell (a wrong-typed leftover reads as absent but the cell counts as occupied)",
+                    "cached_semantic_hash is specified for a fixed weight map only (C11); the stream uses the uncached semantic_hash"],
+        "assumptions": ["queries start from all-clear scratch (proved to be an invariant of every public query)"],
+        "level_text": "Kernel-checked on a DAG store with one tagged scratch cell per node: the memoised fold returns the tree-level fold for shared nodes "
+                      "and both polarities (foldDag_eq_tree), after a pass every reachable cell is occupied so the short-circuiting clear empties "
+                      "everything (pass_occupies_reachable, clear_after_pass), every query is pure (fold_pure, bddFold_pure, optim_pure, "
+                      "countNodes_pure) and any sequence of queries over any roots answers as on a fresh copy and ends all-clear (queries_pure, "
+                      "queries_commute, queries_perm); the same for SDD folds (C10Sdd.*).",
+        "level_note": "Trusted: Lean kernel; allowed axioms; harness+driver. SDD condition/smooth not in the scratch model. cached_semantic_hash keeps a per-node value that is not keyed by the map: by C11's wording it is only specified for a fixed map.",
+        "explanation": "C10.* and C10Sdd.* theorems; query stream: answers vs fresh copy, scratch emptiness, tree-level values, and the DAG+scratch model.",
+    },
+    "C12": {
+        "modules": ["RsddModel.Props.C12"],
+        "streams": [OPT_STREAM],
+        "rule": "the two largest distinct diagrams of a builder pool under a random order; marginal MAP / real branch-and-bound: every subset size 0..4 of "
+                "query variables in random order, weights in eighths, non-query normalised, query weights arbitrary in [0,1]; MEU / EU branch-and-bound: "
+                "utility variables are the last one or two of the order with utilities 0..10, decisions among the earlier ones with unit weight, other "
+                "variables probabilistic; non-trivial = non-empty query set on a diagram with a node below a node",
+        "trusted": ["modelled not verified: f64 as exact rationals (dyadic weights), the scratch memo of bdd_fold (C10)"],
+        "assumptions": ["weights in the stated domain", "utility-bearing variables ordered after all decision variables (hypothesis of the property and of meu_opt)"],
+        "level_text": "Kernel-checked over Rat: the relaxed fold is an upper bound of every completion (ub_sound), the branch-and-bound recursion returns "
+                      "max(lb, best completion) with an attaining complete assignment (bnb_opt), marginal_map = exhaustive maximum with an attaining "
+                      "assignment of exactly the query variables (marginalMap_opt), the same for MEU in the utility component under the stated "
+                      "ordering hypothesis (meu_opt) and for the generic branch and bound under explicit lattice/monotonicity laws proved for the "
+                      "real and expected-utility instances (bb_opt, bb_real_opt, bb_eu_opt).",
+        "level_note": "Trusted: Lean kernel; allowed axioms; harness+driver. f64 modelled by Rat.",
+        "explanation": "C12.* theorems; opt stream: value and assignment vs exhaustive maximisation and vs the mirrored model (tie-breaking included).",
     },
 }
